@@ -110,6 +110,8 @@ inline int run_all(const std::function<void(const Script&)>& run) {
         int po[2], pe[2];
         if (pipe(po) || pipe(pe)) { perror("pipe"); return 2; }
         pid_t pid = fork();
+        for (int attempt = 0; pid < 0 && attempt < 100; ++attempt) { usleep(100000); pid = fork(); }     // EAGAIN on a loaded machine
+        if (pid < 0) { close(po[0]); close(po[1]); close(pe[0]); close(pe[1]); printf("!! harness-fork-failed\n"); fflush(stdout); continue; }
         if (pid == 0) {
             close(po[0]); close(pe[0]);
             dup2(po[1], 1); dup2(pe[1], 2);
